@@ -119,7 +119,7 @@ type scenario struct {
 	StopMode  string `json:"stopMode"`
 	RootIgn   bool   `json:"rootIgnTerm"` // the direct child ignores SIGTERM
 	Reused    bool   `json:"reused"`      // the Subprocess object has been started and stopped once before
-	Launcher  string `json:"launcher"` // direct | translated (through a command translator: env, which execs the command)
+	Launcher  string `json:"launcher"`    // direct | translated (through a command translator: env, which execs the command)
 	Desc      []int  `json:"desc"`
 }
 
@@ -184,6 +184,9 @@ func (quiet) LogError(...interface{})      {}
 
 const boundMs = 12000
 
+// deadlineAfter: stop mode "deadline" - the time limit of the context, counted from the creation of the subprocess object
+const deadlineAfter = 900 * time.Millisecond
+
 func runTree(id int, sc scenario, scratch string) (treeEvent, error) {
 	b, _ := json.Marshal(sc)
 	ev := treeEvent{Op: "Tree", ID: id, StartMode: sc.StartMode, StopMode: sc.StopMode, Launcher: sc.Launcher, RootExits: sc.RootExits, BoundMs: boundMs,
@@ -224,6 +227,15 @@ func runTree(id int, sc scenario, scratch string) (treeEvent, error) {
 	self, _ := os.Executable()
 	ctx, cancel := context.WithCancel(context.Background())
 	defer cancel()
+	var expiry time.Time
+	if sc.StopMode == "deadline" { // the context ends by itself, by its time limit
+		expiry = time.Now().Add(deadlineAfter)
+		if sc.Reused {
+			expiry = expiry.Add(deadlineAfter)
+		}
+		ctx, cancel = context.WithDeadline(context.Background(), expiry)
+		defer cancel()
+	}
 	var p *subprocess.Subprocess
 	if sc.Launcher == "translated" {
 		p = new(subprocess.Subprocess)
@@ -302,6 +314,14 @@ func runTree(id int, sc scenario, scratch string) (treeEvent, error) {
 		}
 	}
 	// the stop request
+	if sc.StopMode == "deadline" {
+		if !ev.SetupOK || time.Until(expiry) < 20*time.Millisecond {
+			ev.SetupOK = false
+			ev.Note = "the time limit of the context passed before the tree was up"
+			return ev, nil
+		}
+		time.Sleep(time.Until(expiry) - time.Millisecond)
+	}
 	t0 := time.Now()
 	returned := make(chan struct{})
 	go func() {
@@ -309,6 +329,8 @@ func runTree(id int, sc scenario, scratch string) (treeEvent, error) {
 		switch sc.StopMode {
 		case "ctx":
 			cancel()
+		case "deadline":
+			<-ctx.Done()
 		case "cancel":
 			p.Cancel()
 		case "stop":
